@@ -1,6 +1,7 @@
 package sim
 
 import (
+	"fmt"
 	"testing"
 	"time"
 
@@ -241,6 +242,7 @@ func famSnapCfgRace(t *testing.T, seed int64, steps int) *Cluster {
 	opt.Initial = map[string]string{"n1": "V", "n2": "V", "n3": "V", "n4": "N"}
 	opt.SnapThresh = 1000 // only the snapshot asked for below
 	opt.Trailing = uint64(seed % 2)
+	opt.CfgStoreFSM = seed%2 == 0 // the FSM's index follows configuration entries only for a ConfigurationStore
 	c := NewCluster(t, opt)
 	c.Bootstrap()
 	c.StartAll()
@@ -277,8 +279,8 @@ func famSnapCfgRace(t *testing.T, seed int64, steps int) *Cluster {
 	mop := c.Member(L, cmd, tgt, 0, 0)
 	c.Settle("client")
 	c.Drive(600*time.Millisecond, nil, func() bool { return mop.Done })
-	if seed%3 == 0 {
-		c.Apply(L, 0)
+	if seed%4 != 3 {
+		c.Apply(L, 0) // a command behind the configuration entry moves the FSM's index past it
 		c.Settle("client")
 		c.Drive(100*time.Millisecond, nil, nil)
 	}
@@ -299,5 +301,136 @@ func famSnapCfgRace(t *testing.T, seed int64, steps int) *Cluster {
 		c.Settle("restart")
 	}
 	c.convergeNoExpect(500 * time.Millisecond)
+	return c
+}
+
+// famRestoreInflight stages a user Restore on a leader that has Apply calls in flight while one follower lags
+// (C20, C02): the calls must fail with ErrAbortedByRestore and leave no trace, every later entry gets a fresh
+// index, and every follower ends with the restored state followed by the later entries.
+func famRestoreInflight(t *testing.T, seed int64, steps int) *Cluster {
+	opt := DefaultOptions(seed)
+	opt.Family = "restoreinflight"
+	opt.Mono = seed%2 == 1
+	opt.MaxAppend = 1 + int(seed%3)
+	opt.Trailing = uint64(seed % 3)
+	c := NewCluster(t, opt)
+	c.Bootstrap()
+	c.StartAll()
+	L := c.WaitLeader(2 * time.Second)
+	if L == "" {
+		return c
+	}
+	var others []string
+	for _, id := range opt.Servers {
+		if id != L {
+			others = append(others, id)
+		}
+	}
+	for i := 0; i < 3+int(seed%4); i++ {
+		c.Apply(L, 0)
+		c.Settle("client")
+	}
+	c.Drive(100*time.Millisecond, nil, nil)
+	// one follower falls behind
+	lag := others[int(seed/2)%len(others)]
+	c.isolate(lag)
+	for i := 0; i < 2+int(seed%5); i++ {
+		c.Apply(L, 0)
+		c.Settle("client")
+	}
+	c.Drive(100*time.Millisecond, nil, nil)
+	if c.Leader() != L {
+		c.healAll()
+		c.converge(500 * time.Millisecond)
+		return c
+	}
+	// the leader is cut off: its next writes stay in flight
+	c.healAll()
+	c.isolate(L)
+	c.dropPendingFrom(L)
+	var infl []*ClientOp
+	for i := 0; i < 1+int(seed%3); i++ {
+		infl = append(infl, c.Apply(L, 0))
+		c.Settle("client")
+	}
+	ln := c.byID[L]
+	last := ln.Raft.LastIndex()
+	// snapshot index: below, at or above the leader's last index
+	idx := []uint64{1, last - 1, last, last + 3}[int(seed/3)%4]
+	if idx == 0 {
+		idx = 1
+	}
+	rop := c.UserRestore(L, []string{fmt.Sprintf("u%d.1", seed), fmt.Sprintf("u%d.2", seed)}, idx, 1, 0)
+	c.Settle("client")
+	// the restore is processed locally; then the network heals before the leader's lease runs out (or after)
+	c.Drive(time.Duration(seed%4)*10*time.Millisecond, nil, nil)
+	c.healAll()
+	c.Drive(800*time.Millisecond, nil, func() bool { return rop != nil && rop.Done })
+	if ld := c.Leader(); ld != "" {
+		for i := 0; i < 2; i++ {
+			c.Apply(ld, 0)
+			c.Settle("client")
+		}
+	}
+	c.Drive(300*time.Millisecond, nil, nil)
+	_ = infl
+	c.converge(800 * time.Millisecond)
+	return c
+}
+
+// famPreVoteTerm stages the one shape in which a pre-vote must be granted at the voter's OWN term: the old
+// leader A is gone for good after it collected B's vote for term T+1; B (term T+1) has a stale log, C (term T)
+// holds everything. C can only win if B grants C's pre-vote for T+1 -- a majority (B, C) can communicate, so
+// the cluster must elect a leader and accept writes (C12), and B must not raise its term on its own (C14).
+func famPreVoteTerm(t *testing.T, seed int64, steps int) *Cluster {
+	opt := DefaultOptions(seed)
+	opt.Family = "prevoteterm"
+	opt.KeepMinorityDown = true
+	c := NewCluster(t, opt)
+	c.Bootstrap()
+	c.StartAll()
+	A := c.WaitLeader(2 * time.Second)
+	if A == "" {
+		return c
+	}
+	var others []string
+	for _, id := range opt.Servers {
+		if id != A {
+			others = append(others, id)
+		}
+	}
+	B, C := others[int(seed)%2], others[1-int(seed)%2]
+	c.Apply(A, 0)
+	c.Settle("client")
+	c.Drive(100*time.Millisecond, nil, nil)
+	// B falls behind by one committed entry
+	c.isolate(B)
+	c.Apply(A, 0)
+	c.Settle("client")
+	c.Drive(60*time.Millisecond, nil, nil)
+	c.healAll()
+	if c.Leader() != A {
+		c.converge(500 * time.Millisecond)
+		return c
+	}
+	// nothing gets through: A's lease runs out; whatever B and C send stays parked and is then lost
+	an := c.byID[A]
+	c.Drive(400*time.Millisecond, func(r *Rpc) bool { return false }, func() bool { return an.Raft.State() != raft.Leader })
+	c.dropPendingFrom(A)
+	c.dropPendingFrom(B)
+	c.dropPendingFrom(C)
+	T := an.Raft.CurrentTerm()
+	// only A's requests travel: its pre-vote reaches both, its RequestVote reaches B alone
+	bn := c.byID[B]
+	ok := c.Drive(600*time.Millisecond, func(r *Rpc) bool {
+		return r.Src == A && (r.Kind == "pv" || (r.Kind == "rv" && r.Dst == B))
+	}, func() bool { return bn.Raft.CurrentTerm() > T })
+	c.Crash(A)
+	c.Settle("crash")
+	c.dropPendingFrom(A)
+	c.dropPendingFrom(B)
+	c.dropPendingFrom(C)
+	_ = ok
+	c.converge(600 * time.Millisecond)
 	return c
 }
